@@ -1460,10 +1460,47 @@ func (self *Node) Load() error {
 	case V_NONE:
 		return nil
 	}
-	if self.m == nil {
+	first := self.m == nil
+	if first {
 		self.m = new(sync.RWMutex)
 	}
-	return self.checkRaw()
+	if err := self.checkRaw(); err != nil {
+		return err
+	}
+	if first {
+		self.loadVisited()
+	}
+	return nil
+}
+
+// loadVisited makes the children which were handed out before Load() (raw or lazy
+// nodes created without a mutex by an earlier Get/Index) safe for concurrent reads too,
+// the children created by Load() itself already carry a mutex.
+func (self *Node) loadVisited() {
+	switch self.itype() {
+	case types.V_ARRAY:
+		s := (*linkedNodes)(self.p)
+		for i := 0; i < s.Len(); i++ {
+			if c := s.At(i); c != nil && c.m == nil && c.isContainerOrRaw() {
+				_ = c.Load()
+			}
+		}
+	case types.V_OBJECT:
+		s := (*linkedPairs)(self.p)
+		for i := 0; i < s.Len(); i++ {
+			if p := s.At(i); p != nil && p.Value.m == nil && p.Value.isContainerOrRaw() {
+				_ = p.Value.Load()
+			}
+		}
+	}
+}
+
+func (self *Node) isContainerOrRaw() bool {
+	if self.isRaw() || self.isLazy() {
+		return true
+	}
+	t := self.itype()
+	return t == types.V_ARRAY || t == types.V_OBJECT
 }
 
 /**---------------------------------- Internal Helper Methods ----------------------------------**/
